@@ -20,7 +20,7 @@
                                         cache.set(fp, (nv, allIDs)); muted := activeIDs <> []
    The marker receives activeIDs when muted and nil otherwise.
 
-   Store: Model/Silence.v, which follows the repair of DESIGN F1 (/repo commit ca83c00): Silences.Merge re-indexes a
+   Store: Model/Silence.v, which follows the repair of DESIGN F1 (/repo commit 5c143bd): Silences.Merge re-indexes a
    REPLACED id (reindex_silence: version+1, the id's versionIndex entry moves to the tail with the new version; mi
    untouched), so a newer replicated version of a silence that a cache entry already dropped is seen by QSince. *)
 From AM Require Import Base.Prelude Gen.Consts Model.Matchers Model.Silence.
